@@ -26,6 +26,26 @@ add("C04", "bounded-exhaustive document x layout exploration with a token table 
     "trusted: token table of the renderer, reference lexer + Earley recogniser for the offending token, unicode-segmentation for grapheme clusters",
     "DESIGN.md section 4, C04")
 
+SEMA_NOTE = "trusted: reference validator transcribed from the statements (harness/src/model/sema.rs), document renderer / token table; diagnostics are matched by severity, range and related ranges, never by message text; bounds as stated"
+add("C05", "exhaustive enumeration of import / declaration / project configurations (and replace / remove histories reaching them) on the real Parser against a reference resolution rule",
+    "All subsets of <= 3 of 8 imports x all sets of 3 forward declarations x 8 (thorough 16) project contexts; the observed file holds 15 adversarially similar names x 5 nesting depths x 4 positions. Every type node's kind after validate() and every diagnostic on a type-name span is compared with the statement's rule; the same final projects are also reached through replace (with transient decoy contents), add-then-remove and reversed histories. Exhaustive over that product.",
+    SEMA_NOTE, "DESIGN.md section 4, C05")
+add("C06", "exhaustive enumeration of import lists x forward-declaration lists x bodies x project contexts against the statement's exactly-one-of table",
+    "Every import list (with repetition) of length <= 2 (thorough <= 3) over 9 imports x every declaration list of length <= 2 (thorough <= 3) over 5 names x 2 bodies x 2 contexts (quick adds all import lists of length 3 with declaration lists <= 1); the multiset of validation diagnostics located in the header must equal the reference multiset (severity, statement, related statement).",
+    SEMA_NOTE, "DESIGN.md section 4, C06")
+add("C07", "exhaustive enumeration of ordered argument pairs over (category x direction) cells x oneway combinations against the statement's table",
+    "All ordered pairs of 80 (category, direction) cells (20 category representatives reached through real multi-file resolution) x interface oneway x 4 method-oneway patterns x with/without a constant before a member, every cell alone, thorough: all triples over a 6-category core; Errors on direction keywords / at argument type starts and the propagated oneway flags are compared with the reference.",
+    SEMA_NOTE, "DESIGN.md section 4, C07")
+add("C08", "exhaustive enumeration of container shapes to depth 3/4 over 17 leaf categories in 4 positions against the statement's element tables",
+    "Every chain over {T[], List<T>, Map<String,T>, Map<T,String>} of depth <= 3 (thorough 4) over 17 leaf categories plus all Map<k,v> over leaf pairs, in return / argument / field / constant position, packed 40 per file and unpacked at the next smaller depth; every validation diagnostic inside a type's extent is compared with the reference applied to every container node.",
+    SEMA_NOTE, "DESIGN.md section 4, C08")
+add("C09", "exhaustive enumeration of member sequences (append-one-member transition) against a reference single pass",
+    "Every member sequence of length <= 4 (thorough 5) over 12 methods (3 names x {no code, 8, 010, 10}) and a constant; all diagnostics inside the interface body incl. related ranges are compared with the reference (first-occurrence bookkeeping, exactly one 'mixed' Error).",
+    SEMA_NOTE, "DESIGN.md section 4, C09")
+add("C10", "exhaustive enumeration of (interface oneway x method lists over oneway x return-type category) against the propagation / void rule",
+    "Interface oneway x all method lists of length <= 1 over 38 forms, pairs over 12 (thorough 38) forms, triples over 8 forms, each plain / constant first / constant between / same method name; oneway flags in the returned tree, Warnings on `oneway` keywords and Errors on return types are compared with the reference.",
+    SEMA_NOTE, "DESIGN.md section 4, C10")
+
 NOT_APPLICABLE = {}
 
 def main():
